@@ -399,6 +399,10 @@ class World:
         self.save_carry()
 
     def abort_commit(self, r):
+        if getattr(self, "io_fault_active", False):
+            # the commit raised under an injected I/O error: it may have landed nevertheless
+            self.save_carry()
+            return
         r.inflight = None
         self.save_carry()
 
